@@ -41,3 +41,19 @@ if a in s:
     print("DESIGN.md tables regenerated")
 else:
     print(text)
+# benign refactorings table (section 8.8)
+res = json.load(open(V + "/benign/RESULTS.json")) if os.path.exists(V + "/benign/RESULTS.json") else {}
+rows = ["| refactoring | what it changes | quick tier |", "|---|---|---|"]
+for d in sorted(x for x in glob.glob(V + "/benign/*") if os.path.isdir(x)):
+    n = os.path.basename(d)
+    m = json.load(open(d + "/meta.json"))
+    verdict = res.get(n, {}).get("verdict") or m.get("check_result_quick", "?")
+    if m.get("history"):
+        verdict += " (after correcting the check: see 8.3)"
+    rows.append("| %s | %s | %s |" % (n, m.get("summary", "")[:230].replace("|", "/").replace("\n", " "), verdict))
+s = open(p if False else V + "/DESIGN.md").read()
+a, b = "<!-- AUTOGEN-BENIGN-BEGIN -->", "<!-- AUTOGEN-BENIGN-END -->"
+if a in s:
+    s = s[: s.index(a) + len(a)] + "\n" + "\n".join(rows) + "\n" + s[s.index(b):]
+    open(V + "/DESIGN.md", "w").write(s)
+    print("DESIGN.md benign table regenerated (%d rows)" % (len(rows) - 2))
